@@ -547,7 +547,7 @@ func (o *Options) build(w *world) (*grpcgcp.GCPMultiEndpointOptions, map[string]
 			// a list naming an endpoint twice is accepted by the library (the priority of the duplicate is not
 			// defined by the statement): the model only demands an up member then
 			given = append(given, l[(me.Dup-1)%len(l)])
-			dups[name] = true
+			w.labels["endpoint-listed-twice"]++ // counts where it is listed first: the model list is l
 		}
 		mes[name] = &multiendpoint.MultiEndpointOptions{Endpoints: given, RecoveryTimeout: time.Duration(me.RMs) * time.Millisecond, SwitchingDelay: time.Duration(me.DMs) * time.Millisecond}
 		model[name] = l
